@@ -48,6 +48,7 @@ type FuncReport struct {
 }
 
 type Exec struct {
+	objectHavoc bool // externalArgsFrame is computing the frame of one call being executed (not a static summary)
 	lockSnap map[*State]map[string]*State // unused placeholder
 	escClosures map[*ssa.Function][]*ssa.Function // closures handed to external code, per function under verification
 	loopFresh *FrameSet // during havocLoop: heaps written only through in-loop allocations
